@@ -241,3 +241,47 @@ def rebind(funcs, patches):
         g[f.__name__] = nf
         out[f.__name__] = nf
     return out
+
+
+def _nanarg(a, axis, better):
+    """contract of np.nanargmax/nanargmin on a 2-D array along axis=1 (or 1-D):
+    index of the first occurrence of the extreme value among the non-NaN
+    entries; ValueError for an all-NaN slice"""
+    a = _np.asarray(a, dtype=object)
+    if a.ndim == 1:
+        rows = [a]
+    else:
+        if axis not in (1, -1):
+            a = a.T
+        rows = list(a)
+    out = []
+    for row in rows:
+        best = None
+        for j, v in enumerate(row):
+            isn = NPProxy.isnan(None, v) if S.is_sym(v) else (v != v)
+            if isn:
+                continue
+            if best is None or better(v, row[best]):
+                best = j
+        if best is None:
+            raise ValueError("All-NaN slice encountered")
+        out.append(best)
+    if len(rows) == 1 and _np.asarray(a).ndim == 1:
+        return out[0]
+    return _np.array(out, dtype=_np.int64)
+
+
+def _nanargmax(self, a, axis=None):
+    if isinstance(a, _np.ndarray) and a.dtype == object:
+        return _nanarg(a, axis, lambda v, b: bool(v > b))
+    return _np.nanargmax(a, axis=axis)
+
+
+def _nanargmin(self, a, axis=None):
+    if isinstance(a, _np.ndarray) and a.dtype == object:
+        return _nanarg(a, axis, lambda v, b: bool(v < b))
+    return _np.nanargmin(a, axis=axis)
+
+
+NPProxy.nanargmax = _nanargmax
+NPProxy.nanargmin = _nanargmin
